@@ -204,7 +204,7 @@ define_ops! {
     cmp_all = |a: U, b: U| V::T(vec![(a == b).into_v(), (a != b).into_v(), (a < b).into_v(), (a <= b).into_v(), (a > b).into_v(), (a >= b).into_v(), a.cmp(&b).into_v(), a.partial_cmp(&b).map(|o| o as i8).into_v(), a.min(b).into_v(), a.max(b).into_v(), (h(&a) == h(&b)).into_v(), a.is_zero().into_v()]);
     // the same comparisons with both operands being the SAME object
     cmp_alias = |a: U| { let (x, y) = (&a, &a); V::T(vec![(x == y).into_v(), (x != y).into_v(), (x < y).into_v(), (x <= y).into_v(), (x > y).into_v(), (x >= y).into_v(), x.cmp(y).into_v(), x.partial_cmp(y).map(|o| o as i8).into_v(), (*x.min(y)).into_v(), (*x.max(y)).into_v(), (h(x) == h(y)).into_v(), x.is_zero().into_v()]) };
-    routes = |a: U, b: U, e: U| { let r = a.wrapping_add(b); let r2 = b.wrapping_add(a); (r == e, r2 == e, h(&r) == h(&e), h(&r2) == h(&e), r.cmp(&e) as i8, e == Uint::from_limbs(*r.as_limbs())) };
+    routes = |a: U, b: U, e: U| { let r = a.wrapping_add(b); let r2 = b.wrapping_add(a); (r == e, r2 == e, h(&r) == h(&e), h(&r2) == h(&e), r.cmp(&e) as i8, e == Uint::from_limbs(r.into_limbs()) && r.into_limbs() == *r.as_limbs()) };
     // ---- part 3: rejecting constructors
     from_limbs = |s: LS| { let mut a = [0u64; L]; a.copy_from_slice(&s); Uint::<B, L>::from_limbs(a) };
     bits_from_limbs = |s: LS| { let mut a = [0u64; L]; a.copy_from_slice(&s); Bits::<B, L>::from_limbs(a) };
